@@ -1060,7 +1060,15 @@ def lock11(cfg):
                 return bool(lits) and not other and not lits[0].get('v')
             # empty optional: `{}` or a default-constructed optional / nullopt of the FUNCTION's return type
             names = []
-            f.walk(x, lambda y: names.append(y) if (y.get('k') in ('ref', 'member') or (y.get('k') == 'call' and (y.get('ck') != 'ctor' or y.get('args')))) else None)
+            def leaf_(y):
+                k_ = y.get('k')
+                if k_ in ('ref', 'member') and y.get('name') != 'nullopt':
+                    names.append(y)
+                elif k_ == 'call' and y.get('ck') != 'ctor':
+                    names.append(y)          # make_optional<...>(...) and friends build a VALUE
+                elif k_ == 'call' and y.get('ck') == 'ctor' and y.get('args') and not (y.get('cls') or '').startswith(('std::optional<', 'std::nullopt_t')):
+                    names.append(y)
+            f.walk(x, leaf_)
             return not names
         used = False
         for b, blk in f.blocks.items():
@@ -1120,7 +1128,7 @@ DESCENT = {'unodb::db<': ('get_internal', 'insert_internal', 'remove_internal'),
 CHILD_CALLS = ('find_child', 'add_or_choose_subtree', 'remove_or_choose_subtree')
 
 
-def desc1(cfg):
+def desc1(cfg, which='all'):
     from ..engine import dominators
     res = RuleResult('DESC-1', 'the descent of get / insert / remove / seek (db and olc_db) consumes the key consistently: a working copy of the operation\'s key is compared with each node\'s prefix (get_shared_length on the working copy, never on the unshifted key), shifted by exactly the prefix length, its first byte selects the child (find_child / add_or_choose_subtree / remove_or_choose_subtree), and it is shifted by one more byte - in this order in every loop iteration; where a tree depth is tracked it advances by the same amounts in the same places; the helpers receive the full key')
     fns = []
@@ -1128,11 +1136,11 @@ def desc1(cfg):
         if not f.blocks:
             continue
         for pre, shorts in DESCENT.items():
-            if f.cls.startswith(pre) and '::iterator' not in f.cls and f.short in shorts:
+            if which in ('all', 'point') and f.cls.startswith(pre) and '::iterator' not in f.cls and f.short in shorts:
                 fns.append(f)
-        if re.match(r'^unodb::db<.*>::iterator$', f.cls) and f.short == 'seek':
+        if which in ('all', 'seek') and re.match(r'^unodb::db<.*>::iterator$', f.cls) and f.short == 'seek':
             fns.append(f)
-        if re.match(r'^unodb::olc_db<.*>::iterator$', f.cls) and f.short == 'try_seek':
+        if which in ('all', 'seek') and re.match(r'^unodb::olc_db<.*>::iterator$', f.cls) and f.short == 'try_seek':
             fns.append(f)
     for f in fns:
         res.count('descent functions')
@@ -1252,5 +1260,5 @@ def desc1(cfg):
         res.ob(ok, {'rule': 'DESC-1', 'function': name, 'site': fileline(f.loc), 'verdict': 'discharged' if ok else 'VIOLATION'})
         for loc, why in problems[:2]:
             res.find(f, loc, '%s: %s - keys below a node with a prefix (or at depth > 0) are looked up, filed or split under the wrong bytes' % (name, why), key='DESC-1:%s' % f.short, config=cfg.name)
-    res.floor('descent functions', 16)
+    res.floor('descent functions', {'all': 16, 'point': 12, 'seek': 4}[which])
     return res
